@@ -8,10 +8,10 @@
 mod verif_c05_altitude {
     use super::*;
     use crate::verif_spec::h::*;
-    use crate::verif_spec::*;
+    use crate::verif_spec as vs;
 
-    fn region_of(m: &[u32], df: u32) -> AltRegion {
-        alt_region13(alt_code_of(m, df))
+    fn region_of(m: &[u32], df: u32) -> vs::AltRegion {
+        vs::alt_region13(vs::alt_code_of(m, df))
     }
 
     macro_rules! alt_region_proof {
@@ -36,20 +36,20 @@ mod verif_c05_altitude {
     fn df17() -> u32 {
         17
     }
-    fn is_q1(r: AltRegion) -> bool {
-        r == AltRegion::Q1NonNeg
+    fn is_q1(r: vs::AltRegion) -> bool {
+        r == vs::AltRegion::Q1NonNeg
     }
-    fn is_q1neg(r: AltRegion) -> bool {
-        r == AltRegion::Q1Neg
+    fn is_q1neg(r: vs::AltRegion) -> bool {
+        r == vs::AltRegion::Q1Neg
     }
-    fn is_zero_or_metric(r: AltRegion) -> bool {
-        r == AltRegion::Zero || r == AltRegion::Metric
+    fn is_zero_or_metric(r: vs::AltRegion) -> bool {
+        r == vs::AltRegion::Zero || r == vs::AltRegion::Metric
     }
-    fn is_gillham_legal(r: AltRegion) -> bool {
-        r == AltRegion::GillhamLegal || r == AltRegion::GillhamHuge || r == AltRegion::GillhamLegalNeg
+    fn is_gillham_legal(r: vs::AltRegion) -> bool {
+        r == vs::AltRegion::GillhamLegal || r == vs::AltRegion::GillhamHuge || r == vs::AltRegion::GillhamLegalNeg
     }
-    fn is_gillham_illegal(r: AltRegion) -> bool {
-        r == AltRegion::GillhamIllegal
+    fn is_gillham_illegal(r: vs::AltRegion) -> bool {
+        r == vs::AltRegion::GillhamIllegal
     }
 
     //@ob id=C05.altitude.ac13.q1_nonneg.14 props=C05 tier=quick kind=contract fns=adsb/altitude.rs:altitude,adsb/altitude.rs:altitude_value,utils/ma_code.rs:ma_code draw=frame14
@@ -107,8 +107,8 @@ mod verif_c05_altitude {
         let a = any_frame28();
         let b = any_frame28();
         let df = any_df_not17();
-        kani::assume(ac13_of(&a) == ac13_of(&b));
-        kani::assume(ac13_of(&a) & AC13_M == 0);
+        kani::assume(vs::ac13_of(&a) == vs::ac13_of(&b));
+        kani::assume(vs::ac13_of(&a) & vs::AC13_M == 0);
         assert!(altitude(&a, df) == altitude(&b, df), "altitude depends on the AC13 field only");
         kani::cover!(true, "reach_end");
     }
@@ -120,7 +120,7 @@ mod verif_c05_altitude {
     fn c05_field_only_ac12() {
         let a = any_frame28();
         let b = any_frame28();
-        kani::assume(ac12_of(&a) == ac12_of(&b));
+        kani::assume(vs::ac12_of(&a) == vs::ac12_of(&b));
         assert!(altitude(&a, 17) == altitude(&b, 17), "altitude depends on the AC12 field only");
         kani::cover!(true, "reach_end");
     }
